@@ -29,14 +29,14 @@ import (
 // ---- statistics -----------------------------------------------------------------------
 
 type stats struct {
-	writeWhileParkedBeforeSync, writerParkedAtFeedDuringWalk, convergenceChecked, syncChecked bool
-	updatesOnly, starSub, globMid, nonEmptyResult, pollRound, onceDone, invalidOrigin         bool
-	deniedSingle, failUser, starDeniedAndAllowedAfterSync, deniedFiltered                     bool
-	stalledDuringWrite, burstCoalesced, burstWithDelete, timeoutFired, shortStallSurvived     bool
-	exactChecked, removeWithSub, removeStarSurvives, resetSeen, staticRound, dynamicRound     bool
-	modelAmbiguous, backdated, richNames, sleptWithACL, parkedInsideFeed, removeReaddRace     bool
-	startedWhileInsideFeed, mixedEnc, nilPath, perPathOrigins, rpcDeadline                    bool
-	skippedSteps, maxBulk, maxOnceLeaves                                                      int
+	writeWhileParkedBeforeSync, writerParkedAtFeedDuringWalk, convergenceChecked, syncChecked  bool
+	updatesOnly, starSub, globMid, nonEmptyResult, pollRound, onceDone, invalidOrigin          bool
+	deniedSingle, failUser, starDeniedAndAllowedAfterSync, deniedFiltered                      bool
+	stalledDuringWrite, burstCoalesced, burstWithDelete, timeoutFired, shortStallSurvived      bool
+	exactChecked, removeWithSub, removeStarSurvives, resetSeen, staticRound, dynamicRound      bool
+	modelAmbiguous, backdated, richNames, sleptWithACL, parkedInsideFeed, removeReaddRace      bool
+	startedWhileInsideFeed, mixedEnc, nilPath, perPathOrigins, rpcDeadline, walkParkedInInsert bool
+	skippedSteps, maxBulk, maxOnceLeaves                                                       int
 }
 
 func (s *stats) labels() []string {
@@ -76,6 +76,7 @@ func (s *stats) labels() []string {
 	add(s.parkedInsideFeed, "writer-parked-inside-the-feed-callback")
 	add(s.startedWhileInsideFeed, "subscription-started-while-a-writer-was-inside-the-feed-callback")
 	add(s.removeReaddRace, "remove-racing-with-re-add-and-update")
+	add(s.walkParkedInInsert, "writer-started-while-a-walk-was-parked-inside-a-queue-insertion")
 	add(s.mixedEnc, "writer-notification-in-deprecated-or-mixed-path-encoding")
 	add(s.nilPath, "subscription-with-unset-path")
 	add(s.rpcDeadline, "stream-context-carries-an-rpc-deadline")
@@ -814,7 +815,7 @@ func (w *world) stepStart(st Step) {
 	s.startLive = s.target == "*" || w.live[s.target]
 	s.stream.recvC <- s.req
 	owner := fmt.Sprintf("sub:%d", s.i)
-	queueGate := st.Park == "coalesce.next.empty"
+	queueGate := st.Park == "coalesce.next.empty" || st.Park == "coalesce.insert.checked"
 	switch {
 	case queueGate:
 		// keyed by the queue, which the harness cannot name: "the next arrival" — during this
@@ -1120,6 +1121,8 @@ func (w *world) body() {
 			w.stepSleep(st)
 		case "rmadd":
 			w.stepRemoveReadd(st)
+		case "wrace":
+			w.stepWalkRace(st)
 		case "check":
 			synctest.Wait()
 			w.noteProgress()
@@ -1431,6 +1434,105 @@ func (w *world) stepRemoveReadd(st Step) {
 	w.afterWriter(rm)
 	w.afterWriter(add)
 	w.st.removeReaddRace = true
+}
+
+// stepWalkRace starts a subscription whose initial walk is parked inside its first queue insertion —
+// i.e. inside the cache query's visitor, with every lock the walk holds still held — and starts a
+// writer operation (Remove, Reset, or a delete notification) on another goroutine while it is parked.
+// In the unchanged server the writer then waits for the walk's locks; the harness yields the processor
+// a number of times, releases the walk and waits for quiescence. How far the writer got during the
+// yields only selects the interleaving; convergence and sync discipline are judged at the next
+// quiescent points (the leaves the writer may delete are excused from "sent before the sync").
+func (w *world) stepWalkRace(st Step) {
+	op := st.W
+	if op == nil || len(w.subs) == 0 {
+		w.st.skippedSteps++
+		return
+	}
+	s := w.subs[st.Sub%len(w.subs)]
+	name := targetName(op.T % w.sc.Targets)
+	if s.started || !w.live[name] || w.busy[name] || len(w.parked) > 0 || s.spec.Mode != "stream" {
+		w.st.skippedSteps++
+		return
+	}
+	switch op.Kind {
+	case "remove", "reset":
+	case "noti":
+		if len(op.Deletes) == 0 {
+			w.st.skippedSteps++
+			return
+		}
+	default:
+		w.st.skippedSteps++
+		return
+	}
+	for _, o := range w.subs {
+		if o.started && !o.ended && o.regStep < 0 {
+			w.st.skippedSteps++
+			return
+		}
+	}
+	owner := fmt.Sprintf("sub:%d", s.i)
+	w.stepStart(Step{Kind: "start", Sub: st.Sub, Park: "coalesce.insert.checked"})
+	if !w.g.isParked(owner) {
+		// the walk found nothing to insert (or the subscription was refused): nothing to race with
+		w.g.release(owner)
+		return
+	}
+	if s.regStep < 0 {
+		// parked in the insertion of the sync marker of an updates_only subscription, which comes before
+		// the registration: a Remove in that window is the case the generator does not schedule (10.2 (v))
+		w.g.release(owner)
+		synctest.Wait()
+		w.noteProgress()
+		return
+	}
+	w.st.walkParkedInInsert = true
+	wr := &writer{owner: fmt.Sprintf("w:%d", w.step), target: name, op: op, step: w.step}
+	for _, o := range w.subs {
+		if o.started && !o.ended {
+			wr.alive = append(wr.alive, o)
+			o.writesDuring = true
+		}
+	}
+	if op.Kind == "noti" {
+		wr.n = w.buildNoti(op)
+	}
+	for _, o := range w.subs {
+		if !o.started || o.syncStep >= 0 {
+			continue
+		}
+		for k := range o.snapshot {
+			ku := gn.Unkey(k)
+			if ku[0] != name {
+				continue
+			}
+			switch op.Kind {
+			case "reset", "remove":
+				o.excused[k] = true
+			case "noti":
+				for _, d := range wr.n.Delete {
+					if gn.Matches(keyOfDelete(wr.n, d), ku) {
+						o.excused[k] = true
+					}
+				}
+			}
+		}
+	}
+	go w.doWriter(wr)
+	for i := 0; i < 500; i++ {
+		runtime.Gosched()
+	}
+	w.g.release(owner)
+	synctest.Wait()
+	if w.fail != nil {
+		panic(w.fail)
+	}
+	if !wr.done {
+		w.failf(w.prop, "step %d: %s on %s, started while a subscription's walk was parked inside a queue insertion, did not return after the walk was released", w.step, op.Kind, name)
+	}
+	w.afterWriter(wr)
+	w.noteProgress()
 }
 
 func hasRich(es []gn.Elem) bool {
